@@ -131,6 +131,60 @@ def safePowerAsFound : Rule :=
     dother := none,
     plain := some safePowerVal }
 
+
+/-! ## smooth-domain conditions
+
+The side condition under which a rule's Jacobian factors are the derivative (Props: `table1_sound`, `table2_sound`), as data, so
+that the driver can evaluate it at every node of every case (`Tree.domF`): first argument = the AdArray entry `x`, second = the
+other operand / first parameter `c`. -/
+inductive Dom where
+  | all        -- no condition
+  | pos        -- 0 < x
+  | xne0       -- x ≠ 0
+  | cne0       -- c ≠ 0
+  | cpos       -- 0 < c
+  | absLt1     -- -1 < x < 1
+  | gt1        -- 1 < x
+  | cosNe0     -- cos x ≠ 0
+  | powC       -- x ≠ 0 ∨ 1 ≤ c
+  | absNeC     -- |x| ≠ c
+  | neC        -- x ≠ c
+  | safePow    -- parameters (power, zero_val, tol): |x| ≠ tol ∧ (x ≠ 0 ∨ 1 ≤ power)
+  | never      -- not a derivative anywhere (RegularizedHeaviside)
+  deriving Repr, DecidableEq, Inhabited
+
+def Dom.holdsF : Dom → Float → List Float → Bool
+  | .all, _, _ => true
+  | .pos, x, _ => 0 < x
+  | .xne0, x, _ => x != 0
+  | .cne0, _, ps => ps.headD 0 != 0
+  | .cpos, _, ps => 0 < ps.headD 0
+  | .absLt1, x, _ => -1 < x && x < 1
+  | .gt1, x, _ => 1 < x
+  | .cosNe0, x, _ => Float.cos x != 0
+  | .powC, x, ps => x != 0 || 1 ≤ ps.headD 0
+  | .absNeC, x, ps => Float.abs x != ps.headD 0
+  | .neC, x, ps => x != ps.headD 0
+  | .safePow, x, ps => Float.abs x != ps.getD 2 0 && (x != 0 || 1 ≤ ps.headD 0)
+  | .never, _, _ => false
+
+/-- rule name ↦ its domain condition (Props.dom_table_agrees: the same conditions the soundness theorems are proved under) -/
+def domTable : List (String × Dom) :=
+  [("exp", .all), ("log", .pos), ("abs", .xne0), ("sin", .all), ("cos", .all), ("tan", .cosNe0), ("arcsin", .absLt1), ("arccos", .absLt1),
+   ("arctan", .all), ("sinh", .all), ("cosh", .all), ("tanh", .all), ("arcsinh", .all), ("arccosh", .gt1), ("arctanh", .absLt1),
+   ("heaviside", .xne0), ("heaviside_smooth", .cne0), ("characteristic_function", .absNeC), ("add_S", .all), ("sub_S", .all), ("rsub_S", .all),
+   ("mul_S", .all), ("pow_S", .powC), ("rpow_S", .cpos), ("truediv_S", .cne0), ("truediv_A", .cne0), ("rtruediv_S", .xne0), ("add_A", .all),
+   ("radd_S", .all), ("radd_A", .all), ("sub_A", .all), ("rsub_A", .all), ("mul_A", .all), ("rmul_S", .all), ("rmul_A", .all), ("pow_A", .powC),
+   ("rpow_A", .cpos), ("rtruediv_A", .xne0), ("neg", .all), ("maximum_AdA", .neC), ("maximum_AdS", .neC), ("maximum_AAd", .neC),
+   ("maximum_SAd", .neC), ("l2_norm_dim1", .xne0), ("add_Ad", .all), ("mul_Ad", .all), ("pow_Ad", .pos), ("rpow_Ad", .cpos), ("truediv_Ad", .cne0),
+   ("rtruediv_Ad", .xne0), ("radd_Ad", .all), ("sub_Ad", .all), ("rsub_Ad", .all), ("maximum_AdAd", .neC), ("safe_power", .safePow),
+   ("regularized_heaviside", .never)]
+
+def domOf (name : String) : Dom :=
+  match domTable.find? (fun p => p.1 == name) with
+  | some p => p.2
+  | none => .never
+
 /-! ## AD programs over Float -/
 
 /-- value vector and dense Jacobian (one row per value) -/
@@ -156,6 +210,8 @@ inductive Tree where
   | slice (idx : List Nat) (a : Tree)
   /-- `l2_norm(dim, a)`, dim ≥ 2, with the generated rule -/
   | l2norm (r : NormRule) (dim : Nat) (a : Tree)
+  /-- `r = a.copy(); r[key] = b` (`AdArray.__setitem__` with an AdArray value): rows `idx` of `a` replaced by the rows of `b` -/
+  | setrows (idx : List Nat) (a b : Tree)
   /-- a generated table entry says this operand combination raises -/
   | raises (kind : String) (a : Tree)
   deriving Inhabited
@@ -242,8 +298,47 @@ def Tree.evalF (vars : List AdF) (n : Nat) : Tree → Res AdF
     -- `np.reshape(var.val, (dim, -1))` raises before the `assert dim_size % dim == 0` is reached
     if x.val.length % dim != 0 then throw "ValueError" else
     pure (l2F r dim n x)
+  | .setrows idx a b => do
+    let x ← a.evalF vars n
+    let y ← b.evalF vars n
+    if idx.any (fun i => i ≥ x.val.length) then throw "IndexError" else
+    if y.val.length != idx.length then throw "ValueError" else
+    let upd := idx.zip (y.val.zip y.jac)
+    pure { val := (List.range x.val.length).map (fun i => match upd.reverse.find? (fun p => p.1 == i) with
+                    | some p => p.2.1
+                    | none => x.val.getD i 0),
+           jac := (List.range x.val.length).map (fun i => match upd.reverse.find? (fun p => p.1 == i) with
+                    | some p => p.2.2
+                    | none => x.jac.getD i []) }
   | .raises kind a => do
     let _ ← a.evalF vars n
     throw kind
+
+/-- every rule application of the tree happens inside the rule's smooth domain, every `l2_norm` group is above the
+    tolerance: the Float reading of `Expr.InDom` (Lemmas), evaluated by the driver on every case -/
+def Tree.domF (vars : List AdF) (n : Nat) : Tree → Res Bool
+  | .var _ => pure true
+  | .fn r ps a => do
+    let x ← a.evalF vars n
+    pure ((← a.domF vars n) && x.val.all (fun v => (domOf r.name).holdsF v ps))
+  | .opS r a c => do
+    let x ← a.evalF vars n
+    pure ((← a.domF vars n) && x.val.all (fun v => (domOf r.name).holdsF v [c]))
+  | .opA r a c => do
+    let x ← a.evalF vars n
+    pure ((← a.domF vars n) && (x.val.zip c).all (fun (v, ci) => (domOf r.name).holdsF v [ci]))
+  | .opAd r a b => do
+    let x ← a.evalF vars n
+    let y ← b.evalF vars n
+    pure ((← a.domF vars n) && (← b.domF vars n) && (x.val.zip y.val).all (fun (v, w) => (domOf r.name).holdsF v [w]))
+  | .matmul _ _ a => a.domF vars n
+  | .slice _ a => a.domF vars n
+  | .l2norm _ dim a => do
+    let x ← a.evalF vars n
+    let tol : Float := 1e-12
+    pure ((← a.domF vars n) && (List.range (x.val.length / dim)).all (fun i =>
+      Float.sqrt (((x.val.drop (dim * i)).take dim).foldl (fun s v => s + v * v) 0) > tol))
+  | .setrows _ a b => do pure ((← a.domF vars n) && (← b.domF vars n))
+  | .raises _ _ => pure false
 
 end PorepyVerif.C01
